@@ -280,6 +280,28 @@ package regattaserver
 //@   before bufio.NewReaderSize assert [C07.stream.rewound+C05+C18] typeIs(rd, *os.File) && asType(rd, *os.File) == sf.File && sf.w.flushed && sf.File.rest == sf.File.whole
 //@   modifies nothing
 
+// ---------------------------------------------------------------- what a follower learns about the leader's tables (C05, C14)
+
+// MetadataServer.Get: the answer names exactly the catalogued tables (as a set - it is sorted on the
+// way); the follower's reconciliation creates and drops its tables from this list
+//@ func slices.SortFunc[[]*regattapb.Table,*regattapb.Table]
+//@   assumed
+//@   params x, cmp
+//@   ensures forall i int :: 0 <= i && i < len(x) ==> exists j int :: 0 <= j && j < len(x) && x[i] == old(x[j])
+//@   ensures forall j int :: 0 <= j && j < len(x) ==> exists i int :: 0 <= i && i < len(x) && x[i] == old(x[j])
+//@   modifies elems(x)
+//@ func (*MetadataServer).Get
+//@   maypanic
+//@   results resp, err
+//@   requires m != nil && m.Tables != nil
+//@   ensures err == nil ==> resp != nil
+//@   modifies nothing
+//@   loop 0 invariant -1 <= rangeindex && rangeindex < len(tabs) && resp != nil && fresh(resp) && (isNilSlice(resp.Tables) || fresh(resp.Tables)) && len(resp.Tables) == rangeindex + 1
+//@   loop 0 invariant forall i int :: 0 <= i && i < len(resp.Tables) ==> resp.Tables[i] != nil && fresh(resp.Tables[i]) && exists j int :: 0 <= j && j <= rangeindex && resp.Tables[i].Name == tabs[j].Name
+//@   loop 0 invariant forall j int :: 0 <= j && j <= rangeindex ==> exists i int :: 0 <= i && i < len(resp.Tables) && resp.Tables[i].Name == tabs[j].Name
+//@   loop 0 exit [C05.meta.complete+C14] forall j int :: 0 <= j && j < len(tabs) ==> exists i int :: 0 <= i && i < len(resp.Tables) && resp.Tables[i].Name == tabs[j].Name
+//@   loop 0 exit [C05.meta.sound+C14] forall i int :: 0 <= i && i < len(resp.Tables) ==> resp.Tables[i] != nil && exists j int :: 0 <= j && j < len(tabs) && resp.Tables[i].Name == tabs[j].Name
+
 // ---------------------------------------------------------------- token authentication (C17)
 
 // the verdict of a configured check on a call, as a function of (check, call context)
@@ -572,5 +594,6 @@ package regattaserver
 //@   results resp, err
 //@   requires t != nil && t.Tables != nil
 //@   before slices.SortFunc[[]*regattapb.TableInfo,*regattapb.TableInfo] assert [C16.tables.list.filled+C14] forall j int :: 0 <= j && j < len(x) ==> x[j] != nil
+//@   before slices.SortFunc[[]*regattapb.TableInfo,*regattapb.TableInfo] assert [C14.tables.list.names] len(x) == len(ts) && forall j int :: 0 <= j && j < len(x) ==> x[j].Name == ts[j].Name      // one entry per catalogued table, under its name
 //@   modifies nothing
-//@   loop 0 invariant -1 <= rangeindex && rangeindex < len(ts) && resp != nil && fresh(resp) && fresh(resp.Tables) && len(resp.Tables) == len(ts) && forall j int :: 0 <= j && j <= rangeindex ==> resp.Tables[j] != nil
+//@   loop 0 invariant -1 <= rangeindex && rangeindex < len(ts) && resp != nil && fresh(resp) && fresh(resp.Tables) && len(resp.Tables) == len(ts) && forall j int :: 0 <= j && j <= rangeindex ==> resp.Tables[j] != nil && fresh(resp.Tables[j]) && resp.Tables[j].Name == ts[j].Name
